@@ -418,14 +418,18 @@ func (h *Header) SetExtension(id uint8, payload []byte) error { //nolint:gocogni
 	}
 
 	// No existing header extensions
-	h.Extension = true
-
 	switch payloadLen := len(payload); {
-	case payloadLen <= 16:
+	case payloadLen >= 1 && payloadLen <= 16 && id >= 1 && id <= 14:
 		h.ExtensionProfile = extensionProfileOneByte
-	case payloadLen > 16 && payloadLen < 256:
+	case payloadLen < 256 && id >= 1:
 		h.ExtensionProfile = extensionProfileTwoByte
+	case id < 1:
+		return fmt.Errorf("%w actual(%d)", errRFC8285TwoByteHeaderIDRange, id)
+	default:
+		return fmt.Errorf("%w actual(%d)", errRFC8285TwoByteHeaderSize, payloadLen)
 	}
+
+	h.Extension = true
 
 	h.Extensions = append(h.Extensions, Extension{id: id, payload: payload})
 
